@@ -370,8 +370,8 @@ def ev_ast(n, env):
         op = n.operator
         if isinstance(op, ast.ComponentRef):
             return ap_call(ref_text(op), [ev_ast(a, env) for a in n.operands])
-        if op == "der":
-            return ap_call("der", [ev_ast(a, env) for a in n.operands])
+        if op in ("der", "initial"):
+            return ap_call(op, [ev_ast(a, env) for a in n.operands])
         vals = [ev_ast(a, env) for a in n.operands]
         if op in POWOPS and len(vals) == 2:
             return ap_pow(op, *vals)
@@ -409,8 +409,8 @@ def canon(n):
         op = n.operator
         if isinstance(op, ast.ComponentRef):
             return ["call", ref_text(op), [canon(a) for a in n.operands]]
-        if op == "der":
-            return ["call", "der", [canon(a) for a in n.operands]]
+        if op in ("der", "initial"):
+            return ["call", op, [canon(a) for a in n.operands]]
         if op in POWOPS and len(n.operands) == 2:
             return ["pow", op, canon(n.operands[0]), canon(n.operands[1])]
         if op in PREOPS and len(n.operands) == 1:
@@ -775,9 +775,8 @@ def check_literal(ctx, drv, kind, lex):
             ctx.disagreement("literal", case, model=mv, impl=canon(node))
 
 
-def check_empty_call(ctx, drv, fname, wrap):
-    """Known-finding stream: zero-argument calls."""
-    tree = wrap(["call", fname, []])
+def check_empty_call(ctx, drv, tree):
+    """Known-finding stream: trees containing a zero-argument call (kept apart from the main streams)."""
     toks = mprint(tree, 0)
     text = text_of(toks)
     case = {"kind": "emptycall", "tree": tree, "text": text}
@@ -787,10 +786,21 @@ def check_empty_call(ctx, drv, fname, wrap):
         ctx.violation("parse raised %s on a zero-argument call" % node, case, expected="an AST", observed=node)
     elif st == "syntax":
         ctx.violation("zero-argument call rejected as a syntax error", case, expected="an AST", observed="None")
-    elif drv is not None:
-        ans = drv.ask({"op": "mprint", "tree": tree})
-        if ans.get("ok") and canon_expected(ans["expected"]) != canon(node):
-            ctx.disagreement("ast", case, model=canon_expected(ans["expected"]), impl=canon(node))
+    else:
+        envs = make_envs()
+        for i, e in enumerate(envs):
+            w, g = ev_src(tree, e), ev_ast(node, e)
+            if not (w is BOT and g is BOT) and (type(w) is not type(g) or w != g):
+                ctx.violation("parsed tree evaluates differently from the source text under Modelica precedence",
+                              case, expected={"env": i, "value": str(w)},
+                              observed={"env": i, "value": str(g), "ast": canon(node)})
+                break
+        if drv is not None:
+            ans = drv.ask({"op": "mprint", "tree": tree})
+            if not ans.get("ok"):
+                raise HarnessError("model driver rejected %s: %s" % (json.dumps(case)[:300], ans))
+            if canon_expected(ans["expected"]) != canon(node):
+                ctx.disagreement("ast", case, model=canon_expected(ans["expected"]), impl=canon(node))
 
 
 def check_case(ctx, drv, c):
@@ -802,24 +812,9 @@ def check_case(ctx, drv, c):
     elif k == "literal":
         check_literal(ctx, drv, c["lit"], c["lexeme"])
     elif k == "emptycall":
-        check_tree_emptycall(ctx, drv, c)
+        check_empty_call(ctx, drv, c["tree"])
     else:
         raise HarnessError("unknown case kind %r" % (k,))
-
-
-def check_tree_emptycall(ctx, drv, c):
-    tree = c["tree"]
-
-    def find(t):
-        if t[0] == "call" and not t[2]:
-            return t[1]
-        for s in t[1:]:
-            if isinstance(s, list) and s and isinstance(s[0], str):
-                r = find(s)
-                if r:
-                    return r
-        return None
-    check_empty_call(ctx, drv, find(tree) or "f", lambda call: tree)
 
 
 # --------------------------------------------------------------------------------------------
@@ -907,6 +902,271 @@ def pair_trees():
 
 
 
+SYM_NAMES = {"+": "plus", "-": "minus", "*": "star", "/": "slash", ".+": "dplus", ".-": "dminus", ".*": "dstar",
+             "./": "dslash", "^": "caret", ".^": "dcaret", "<": "lt", "<=": "le", ">": "gt", ">=": "ge", "==": "eq",
+             "<>": "ne", "not": "not", "and": "and", "or": "or"}
+
+
+class _Shape(Exception):
+    pass
+
+
+def _alt_entries(items, loop):
+    """items of one alternative -> table rows [(lexeme, kind, level, operand level)]"""
+    kinds = [i[0] for i in items]
+    if loop:
+        if kinds != ["pred", "tok", "expr"]:
+            raise _Shape("loop alternative %r" % (items,))
+        return [(lx, "bin", items[0][1], items[2][1]) for lx in items[1][1]]
+    if kinds == ["tok", "expr"]:
+        return [(lx, "pre", 0, items[1][1]) for lx in items[0][1]]
+    if kinds == ["primary", "tok", "primary"]:
+        return [(lx, "pow", 0, 0) for lx in items[1][1]]
+    if kinds == ["primary"]:
+        return []
+    raise _Shape("prefix alternative %r" % (items,))
+
+
+def _source_table(path):
+    """Rows from the Python source of ModelicaParser.expr (explicit precpred / self.expr(n) / token tests)."""
+    import ast as pyast
+    tree = pyast.parse(open(path).read())
+    cls = [n for n in tree.body if isinstance(n, pyast.ClassDef) and n.name == "ModelicaParser"]
+    if not cls:
+        raise _Shape("class ModelicaParser not found")
+    consts, literal = {}, None
+    for n in cls[0].body:
+        if isinstance(n, pyast.Assign) and len(n.targets) == 1 and isinstance(n.targets[0], pyast.Name):
+            name = n.targets[0].id
+            if isinstance(n.value, pyast.Constant) and isinstance(n.value.value, int):
+                consts[name] = n.value.value
+            elif name == "literalNames":
+                literal = pyast.literal_eval(n.value)
+    fns = [n for n in cls[0].body if isinstance(n, pyast.FunctionDef) and n.name == "expr"]
+    if not fns or literal is None:
+        raise _Shape("method expr / literalNames not found")
+
+    def lexemes(types):
+        out = []
+        for t in sorted(types):
+            if not (0 <= t < len(literal)) or not literal[t].startswith("'"):
+                raise _Shape("token type %r has no literal name" % t)
+            out.append(literal[t][1:-1])
+        return out
+
+    def ev(node, la):
+        if isinstance(node, pyast.Constant):
+            return node.value
+        if isinstance(node, pyast.Name) and node.id == "_la":
+            return la
+        if isinstance(node, pyast.BoolOp):
+            vals = [ev(v, la) for v in node.values]
+            return all(vals) if isinstance(node.op, pyast.And) else any(vals)
+        if isinstance(node, pyast.UnaryOp):
+            v = ev(node.operand, la)
+            if isinstance(node.op, pyast.Not):
+                return not v
+            if isinstance(node.op, pyast.Invert):
+                return ~v
+            if isinstance(node.op, pyast.USub):
+                return -v
+        if isinstance(node, pyast.BinOp):
+            a, b = ev(node.left, la), ev(node.right, la)
+            ops = {pyast.BitAnd: lambda: a & b, pyast.BitOr: lambda: a | b, pyast.LShift: lambda: a << b if 0 <= b < 4096 else 0,
+                   pyast.RShift: lambda: a >> b, pyast.Sub: lambda: a - b, pyast.Add: lambda: a + b}
+            if type(node.op) in ops:
+                return ops[type(node.op)]()
+        if isinstance(node, pyast.Compare) and len(node.ops) == 1:
+            a, b = ev(node.left, la), ev(node.comparators[0], la)
+            o = node.ops[0]
+            if isinstance(o, pyast.Eq):
+                return a == b
+            if isinstance(o, pyast.NotEq):
+                return a != b
+        raise _Shape("token test not understood: " + pyast.dump(node)[:200])
+
+    def is_self_call(node, name):
+        return (isinstance(node, pyast.Call) and isinstance(node.func, pyast.Attribute) and node.func.attr == name
+                and isinstance(node.func.value, pyast.Name) and node.func.value.id == "self")
+
+    def uses(node, name):
+        return any(isinstance(x, pyast.Name) and x.id == name for x in pyast.walk(node))
+
+    def items_of(stmts):
+        items = []
+        for st in stmts:
+            if isinstance(st, pyast.If):
+                t = st.test
+                if isinstance(t, pyast.UnaryOp) and isinstance(t.op, pyast.Not):
+                    inner = t.operand
+                    if is_self_call(inner, "precpred"):
+                        items.append(("pred", pyast.literal_eval(inner.args[1])))
+                        continue
+                    if uses(inner, "_la"):
+                        items.append(("tok", lexemes([la for la in range(0, 512) if ev(inner, la)])))
+                        continue
+                items += items_of(st.body) + items_of(st.orelse)
+                continue
+            for node in pyast.walk(st):
+                if is_self_call(node, "expr"):
+                    items.append(("expr", pyast.literal_eval(node.args[0])))
+                elif is_self_call(node, "primary"):
+                    items.append(("primary",))
+                elif is_self_call(node, "match"):
+                    a = node.args[0]
+                    if not (isinstance(a, pyast.Attribute) and a.attr in consts):
+                        raise _Shape("match argument not understood")
+                    items.append(("tok", lexemes([consts[a.attr]])))
+        return items
+
+    def chain(ifnode):
+        """branches of an if/elif chain on `la_ == k`"""
+        out = []
+        node = ifnode
+        while True:
+            t = node.test
+            if not (isinstance(t, pyast.Compare) and isinstance(t.left, pyast.Name) and t.left.id == "la_"):
+                raise _Shape("alternative chain not on la_")
+            out.append(node.body)
+            if len(node.orelse) == 1 and isinstance(node.orelse[0], pyast.If):
+                node = node.orelse[0]
+            elif not node.orelse:
+                return out
+            else:
+                raise _Shape("alternative chain with else")
+
+    def find_chains(stmts, in_loop, acc):
+        for st in stmts:
+            if isinstance(st, pyast.If) and isinstance(st.test, pyast.Compare) and isinstance(st.test.left, pyast.Name) \
+                    and st.test.left.id == "la_":
+                acc.append((in_loop, chain(st)))
+            elif isinstance(st, pyast.While):
+                find_chains(st.body, True, acc)
+            elif isinstance(st, pyast.If):
+                find_chains(st.body, in_loop, acc)
+                find_chains(st.orelse, in_loop, acc)
+            elif isinstance(st, pyast.Try):
+                find_chains(st.body, in_loop, acc)
+        return acc
+
+    chains = find_chains(fns[0].body, False, [])
+    if [c[0] for c in chains] != [False, True]:
+        raise _Shape("expected one prefix chain and one loop chain, found %r" % [c[0] for c in chains])
+    rows = []
+    for in_loop, branches in chains:
+        for b in branches:
+            rows += _alt_entries(items_of(b), in_loop)
+    return rows
+
+
+def _atn_table():
+    """Rows from the deserialised ATN of the imported parser (what adaptivePredict really follows)."""
+    from antlr4.atn.Transition import Transition
+    from pymoca.generated.ModelicaParser import ModelicaParser as P
+    atn, ri, names = P.atn, P.RULE_expr, P.literalNames
+
+    def lexemes(t):
+        out = []
+        for x in t.label:
+            if not (0 <= x < len(names)) or not names[x].startswith("'"):
+                raise _Shape("ATN token type %r has no literal name" % x)
+            out.append(names[x][1:-1])
+        return sorted(out)
+
+    def walk_alt(state, stop_types):
+        """linear path of one alternative: list of items until a block end / loop back state"""
+        items = []
+        seen = set()
+        while type(state).__name__ not in stop_types:
+            if state.stateNumber in seen or len(state.transitions) != 1:
+                raise _Shape("ATN alternative is not a linear path at state %d" % state.stateNumber)
+            seen.add(state.stateNumber)
+            t = state.transitions[0]
+            k = t.serializationType
+            if k in (Transition.EPSILON, Transition.ACTION):
+                state = t.target
+            elif k == Transition.PRECEDENCE:
+                items.append(("pred", t.precedence))
+                state = t.target
+            elif k in (Transition.ATOM, Transition.SET, Transition.RANGE):
+                items.append(("tok", lexemes(t)))
+                state = t.target
+            elif k == Transition.RULE:
+                rn = P.ruleNames[t.ruleIndex]
+                if rn == "expr":
+                    items.append(("expr", t.precedence))
+                elif rn == "primary":
+                    items.append(("primary",))
+                else:
+                    raise _Shape("ATN: unexpected rule %s inside expr" % rn)
+                state = t.followState
+            else:
+                raise _Shape("ATN: unexpected transition type %d" % k)
+        return items, state
+
+    start = atn.ruleToStartState[ri]
+    if len(start.transitions) != 1:
+        raise _Shape("ATN: rule start")
+    block = start.transitions[0].target
+    rows = []
+    end = None
+    for t in block.transitions:
+        items, end = walk_alt(t.target, ("BlockEndState",))
+        rows += _alt_entries(items, False)
+    # after the prefix block: star loop entry -> star block start -> alternatives
+    loop_entry = end.transitions[0].target
+    if type(loop_entry).__name__ != "StarLoopEntryState":
+        raise _Shape("ATN: no star loop after the prefix block")
+    sblock = [t.target for t in loop_entry.transitions if type(t.target).__name__ == "StarBlockStartState"]
+    if len(sblock) != 1:
+        raise _Shape("ATN: star block")
+    for t in sblock[0].transitions:
+        items, _ = walk_alt(t.target, ("BlockEndState",))
+        rows += _alt_entries(items, True)
+    return rows
+
+
+def _lean_rows(rows):
+    out = []
+    for lx, kind, a, b in sorted(rows, key=lambda r: (r[1], r[0])):
+        if lx not in SYM_NAMES:
+            raise _Shape("operator lexeme %r unknown to the model" % lx)
+        out.append("(.%s, .%s, %d, %d)" % (SYM_NAMES[lx], kind, a, b))
+    return "[" + ",\n   ".join(out) + "]"
+
+
+def translate(ctx):
+    """Regenerates lean/PymocaVerif/Generated/ExprTable.lean from the imported pymoca's generated parser."""
+    from harness.common import LEAN_DIR
+    out_path = os.path.join(LEAN_DIR, "PymocaVerif", "Generated", "ExprTable.lean")
+    try:
+        import pymoca.generated.ModelicaParser as mp
+        src = _source_table(mp.__file__)
+        atn = _atn_table()
+        text = (
+            "import PymocaVerif.Model.ExprGrammar\n"
+            "/-! GENERATED by harness/props/c03.py (`translate`) from `pymoca/generated/ModelicaParser.py` — do not edit.\n"
+            "    Rows `(operator, kind, level, operand level)` sorted by kind, then lexeme. -/\n"
+            "namespace PymocaVerif.Generated.ExprTable\nopen PymocaVerif.ExprGrammar\n\n"
+            "/-- from the Python source of `ModelicaParser.expr`: token tests, `precpred(_, n)`, `self.expr(n)` -/\n"
+            "def exprTable : TblData :=\n  " + _lean_rows(src) + "\n\n"
+            "/-- from the deserialised ATN of rule `expr` (precedence predicates and rule-call precedences) -/\n"
+            "def atnTable : TblData :=\n  " + _lean_rows(atn) + "\n\n"
+            "end PymocaVerif.Generated.ExprTable\n")
+    except _Shape as e:
+        ctx.tie_broken("translator:ExprTable", str(e))
+        return
+    except Exception as e:  # noqa: BLE001 - the generated parser could not even be read / imported
+        ctx.tie_broken("translator:ExprTable", "%s: %s" % (type(e).__name__, e))
+        return
+    old = open(out_path).read() if os.path.exists(out_path) else None
+    if old != text:
+        os.makedirs(os.path.dirname(out_path), exist_ok=True)
+        with open(out_path, "w") as f:
+            f.write(text)
+        ctx.notes.append("Generated/ExprTable.lean rewritten")
+
+
 def run(ctx):
     drv = ctx.driver("drv_c03")
     quick = ctx.tier == "quick"
@@ -916,10 +1176,11 @@ def run(ctx):
         ctx.count("corpus")
         check_case(ctx, drv, c)
     # known-finding stream (kept apart from everything else)
-    for f, wrap in (("f", lambda c: c), ("initial", lambda c: ["pre", "not", c]),
-                    ("Lib.g", lambda c: ["bin", "+", ["num", "1"], c])):
+    for t in (["call", "f", []], ["pre", "not", ["call", "initial", []]],
+              ["bin", "*", ["num", "2"], ["call", "Lib.g", []]], ["call", "der", []],
+              ["bin", "-", ["call", "max", [["call", "f", []], ["ref", "x"]]], ["num", "1"]]):
         ctx.count("stream-emptycall")
-        check_empty_call(ctx, drv, f, wrap)
+        check_empty_call(ctx, drv, t)
     # systematic operator pairs, minimal parentheses and fully parenthesised
     for t in pair_trees():
         ctx.count("stream-pairs")
